@@ -240,19 +240,17 @@ def reachesValidTo (m : C03.Msg String) : Bool :=
 
 /-- `_on_data` of the listener's advertisement (`sockA`) / search socket, then the tracker.
     `extract_valid_to` — the only raising code behind the listener — runs exactly when the message
-    passed its validity test and `_see_device` found a uuid USN; its (saturating) result replaces
-    the max-age the tracker model would read, so that `valid_to = min(ts + max-age, datetime.max)`. -/
+    passed its validity test and `_see_device` found a uuid USN; only its RAISING is modelled here
+    (switches F02f–h): the saturating value itself is the tracker model's (`C03.Parse.effMaxAge`). -/
 def listenerStep (fx : Fixes) (trk : C03.Cfg) (sockA : Bool) (t : Tracker) (h : Hdrs) :
     Except Exn (Tracker × Option (C03.Notif String)) :=
-  let stp := C03.step ipv (C03.Parse.skipHdr trk) t
-  match C03.Parse.parseEv trk sockA (pairsOf h) with
-  | .msg m =>
-    if reachesValidTo m then
-      match validTo fx h m.ts with
-      | .error e => .error e
-      | .ok vt => .ok (stp (.msg { m with maxAge := vt - m.ts }))
-    else .ok (stp (.msg m))
-  | ev => .ok (stp ev)
+  let ev := C03.Parse.parseEv trk sockA (pairsOf h)
+  let raised : Option Exn := match ev with
+    | .msg m => if reachesValidTo m then (match validTo fx h m.ts with | .error e => some e | .ok _ => none) else none
+    | _ => none
+  match raised with
+  | some e => .error e
+  | none => .ok (C03.step ipv (C03.Parse.skipHdr trk) t ev)
 
 def effOfNotif (n : Option (C03.Notif String)) : Eff :=
   match n with
